@@ -79,7 +79,7 @@ H(prop="C16", name="c16_display_context_n9", crate="core-h", module="c16_positio
 
 # ---------------------------------------------------------------- C10
 for ln in range(5):
-    H(prop="C10", name=f"c10_input_edit_exact_len{ln}", crate="core-h", module="c10_edit", mem_gb=20, timeout=1800, tier="quick" if ln <= 3 else "thorough",
+    H(prop="C10", name=f"c10_input_edit_exact_len{ln}", crate="core-h", module="c10_edit", mem_gb=20, timeout=1800, tier="quick" if ln <= 2 else "thorough",
       decides="AstGrep::edit: new text == splice; the old tree receives exactly one Tree::edit whose InputEdit (bytes and row/col points) describes the change exactly; re-parse is given the old tree",
       functions=["ast_grep_core::node::Root::do_edit", "ast_grep_core::source::perform_edit",
                  "ast_grep_core::source::<String as Content>::accept_edit", "ast_grep_core::source::position_for_offset"],
@@ -370,17 +370,35 @@ for nm, dec in (("c04_insert_coherent", "MetaVarEnv::insert: a second binding is
       decides=dec, functions=["ast_grep_core::meta_var::MetaVarEnv::insert", "ast_grep_core::meta_var::MetaVarEnv::insert_multi", "ast_grep_core::meta_var::MetaVarEnv::match_multi_var", "ast_grep_core::match_tree::does_node_match_exactly"],
       assumes=[ST_TS, ST_MAP], shape="root + 2 leaves", bounds="two leaves with equal / different 1-byte texts, symbolic choice of nodes and names; arena 4, unwind 6")
 
+SHAPES_BOUNDS = "all 9 pre-order shapes of <= 4 nodes x every start node (concrete loops) x symbolic verdict vector, kinds 1..8, advertised kind set (or None), match lengths; unwind 10"
+H(prop="C01", name="c01_find_all_exact_shapes4", crate="core-h", module="c01_search", timeout=1800, mem_gb=20,
+  decides="FindAllNodes (kind prefilter + Pre) yields exactly the matching nodes of the subtree, ascending document order, none dropped/invented/duplicated",
+  functions=["ast_grep_core::matcher::FindAllNodes::next", "ast_grep_core::traversal::Pre::next", "ast_grep_core::traversal::Pre::trace_up"], assumes=SEARCH_ASSUMES, shape="9 shapes <= 4", bounds=SHAPES_BOUNDS)
+H(prop="C01", name="c01_outermost_pre_shapes4", crate="core-h", module="c01_search", timeout=1800, mem_gb=20,
+  decides="Visitor::reentrant(false) yields exactly the matched nodes without a matched proper ancestor, in document order",
+  functions=["ast_grep_core::traversal::Visit::next", "ast_grep_core::traversal::Pre::calibrate_for_match", "ast_grep_core::traversal::Pre::trace_up"], assumes=SEARCH_ASSUMES, shape="9 shapes <= 4", bounds=SHAPES_BOUNDS)
+H(prop="C06", name="c06_replace_all_disjoint_shapes4", crate="core-h", module="c01_search", timeout=1800, mem_gb=20,
+  decides="Node::replace_all: one edit per outermost match, = [match.start, start + match_len), ordered, pairwise disjoint, inside the file",
+  functions=["ast_grep_core::node::Node::replace_all", "ast_grep_core::matcher::node_match::NodeMatch::make_edit", "ast_grep_core::replacer::Replacer::get_replaced_range"],
+  assumes=SEARCH_ASSUMES + ["get_match_len stub returns a length <= the node's length"], shape="9 shapes <= 4", bounds=SHAPES_BOUNDS)
+
+H(prop="C19", name="c19_field_access_n4", crate="core-h", module="c19_nav", assumes=[ST_TS], timeout=1800, mem_gb=20,
+  decides="field_children(name) yields exactly the children carrying that field, in order; field(name) and child_by_field_id(id) return the first of them; unknown field names yield nothing",
+  functions=["ast_grep_core::node::Node::field_children", "ast_grep_core::node::Node::field", "ast_grep_core::node::Node::child_by_field_id"],
+  shape="ANY(4)", bounds="every tree <= 4 nodes, symbolic field label in {none, fielda, fieldb} per node, every start node; unwind 10")
+
 
 # ---------------------------------------------------------------- tier policy (measured)
 # quick = harnesses measured to finish in a few minutes; everything that needs tens of minutes
 # of symbolic execution (anything through MetaVarEnv, RuleCore/CombinedScan, String-heavy
 # template parsing) is thorough-tier.
 _HEAVY_PREFIXES = ("c03_env_", "c03_len_", "c02_", "c04_ops_", "c05d_", "c05_", "c14_ign", "c14_stm", "c14_plain", "c12_check", "c12_util", "c12_fix_forms_agree", "c01_combined", "c06_rewrite",
-                   "c07_template_scan", "c11_replace_regex_total", "c13_")
+                   "c07_template_scan", "c11_replace_regex_total", "c13_", "c01_find_all_exact_n", "c01_outermost_pre_n", "c06_replace_all_disjoint_n4", "c01_kinds_algebra")
 for _h in HARNESSES:
     if _h["name"].startswith(_HEAVY_PREFIXES):
         _h["tier"] = "thorough"
         _h.setdefault("timeout", 5400)
         if _h["timeout"] < 5400:
             _h["timeout"] = 5400
+
 
